@@ -11,7 +11,8 @@ R4 the root tile's DATAMIN/DATAMAX are copied to the image set's data_min/data_m
 """
 import ast
 
-from sa import sym
+from sa import sym, boolalg
+from sa.teval import teval, UNKNOWN
 from sa.sym import show, num, num_value, atoms_of
 from sa.model import dotted, own_calls, own_nodes, callee_attr
 
@@ -171,17 +172,24 @@ def _chain_links(run):
     run.note_func(f)
     ev = sym.make_evaluator(project, IMG, [])
     r = ev.run(f.node)
-    fa = [e for e in r.events if e.kind == "call" and e.term[1] == ("attr", ("sym", "Image"), "from_array") and dict(e.term[3]).get("default_format") == ("const", "fits")]
+    ev.self_class = IMG + ".ImageLoader"
+    r = ev.run(f.node)
+    fa = []
+    for e in r.events:
+        if e.kind == "call" and e.term[1] == ("attr", ("sym", "Image"), "from_array"):
+            g_, b_ = ev.bound_args(e.term)
+            b_ = b_ if b_ is not None else dict(e.term[3])
+            if b_.get("default_format") == ("const", "fits"):
+                fa.append((e, b_))
     ok = False
     node = None
     if fa:
-        kw = dict(fa[0].term[3])
-        node = fa[0].node
-        def key_of(t):
-            if t is not None and t[0] == "call" and t[1][0] == "attr" and t[1][2] == "_get_header_value_or_none":
-                return dict(t[3]).get("keyword")
-            return None
-        ok = key_of(kw.get("min_value")) == ("const", "DATAMIN") and key_of(kw.get("max_value")) == ("const", "DATAMAX")
+        e0, kw = fa[0]
+        node = e0.node
+
+        def keys_of(t):
+            return {a[1] for a in atoms_of(t) if a[0] == "const" and a[1] in ("DATAMIN", "DATAMAX")} if t is not None else set()
+        ok = keys_of(kw.get("min_value")) == {"DATAMIN"} and keys_of(kw.get("max_value")) == {"DATAMAX"}
     out.append((f, ok, "load: min_value <- header DATAMIN, max_value <- header DATAMAX" if ok else
                 "FITS tiles are loaded with min_value/max_value not taken from DATAMIN/DATAMAX respectively", "load-keys", node))
     # L2 from_array
@@ -208,7 +216,8 @@ def _chain_links(run):
     evp = sym.make_evaluator(project, PYR, [])
     r = evp.run(f.node)
     sv = [e for e in r.events if e.kind == "call" and e.term[1][0] == "attr" and e.term[1][2] == "save"]
-    ok = bool(sv) and dict(sv[0].term[3]).get("min_value") == ("sym", "min_value") and dict(sv[0].term[3]).get("max_value") == ("sym", "max_value")
+    svb = (evp.bound_args(sv[0].term)[1] or dict(sv[0].term[3])) if sv else {}
+    ok = bool(sv) and svb.get("min_value") == ("sym", "min_value") and svb.get("max_value") == ("sym", "max_value")
     out.append((f, ok, "write_image forwards min_value/max_value to Image.save" if ok else "write_image does not forward min_value/max_value unchanged to Image.save", "write-forward",
                 sv[0].node if sv else None))
     return out
@@ -223,8 +232,10 @@ def _r2_provenance(run):
     r = ev.run(f.node)
     hdr, kw = ("sym", f.params()[1]), ("sym", f.params()[2])
     rets = [t for pc, t, n in r.returns]
+    if len(rets) > 1 and not any(c[0] == "loop" for pc, t, n in r.returns for c in pc):
+        rets = [boolalg.fold_returns(r.returns)]
     present = ("op", "cmp:In", (kw, hdr))
-    want = ("ite", present, ("sub", hdr, kw), sym.NONE)
+    want = sym.mk_ite(present, ("sub", hdr, kw), sym.NONE)
     alt = ("call", ("attr", hdr, "get"), (kw,), ())
     alt2 = ("call", ("attr", hdr, "get"), (kw, sym.NONE), ())
     if len(rets) == 1 and rets[0] in (want, alt, alt2):
@@ -251,14 +262,19 @@ def _r2_provenance(run):
     else:
         kw_ = dict(wr[0].term[3])
         mn, mx = kw_.get("min_value"), kw_.get("max_value")
-        helper = ("call", ("attr", ("sym", "self"), "_get_min_max_of_children"), (("list", tuple(reads)),), ())
-        helper_t = ("call", ("attr", ("sym", "self"), "_get_min_max_of_children"), (("tuple", tuple(reads)),), ())
+        def from_helper(t, slot):
+            if t is None or t[0] != "item" or t[2] != slot:
+                return False
+            h = t[1]
+            return h[0] == "call" and h[1] == ("attr", ("sym", "self"), "_get_min_max_of_children") and len(h[2]) == 1 \
+                and h[2][0][0] in ("list", "tuple") and sorted(h[2][0][1], key=repr) == sorted(reads, key=repr) and len(reads) == 4
+        helper = helper_t = None
         if mn is None or mx is None:
             run.violated("C14.R2", f, wr[0].node, "the parent tile is written without min_value/max_value: its header gets the range of the averaged pixels, "
                          "not of the full-resolution leaves", kind="parent-range-missing")
-        elif mn in (("item", helper, 0), ("item", helper_t, 0)) and mx in (("item", helper, 1), ("item", helper_t, 1)):
+        elif from_helper(mn, 0) and from_helper(mx, 1):
             run.holds("C14.R2", f, wr[0].node, "parent range = _get_min_max_of_children([img0, img1, img2, img3]) -> (min_value, max_value)")
-        elif mn in (("item", helper, 1), ("item", helper_t, 1)):
+        elif from_helper(mn, 1):
             run.violated("C14.R2", f, wr[0].node, "min_value/max_value receive the (min, max) pair in the wrong order", kind="parent-range-swapped")
         else:
             dep = show(mn)[:80]
@@ -277,26 +293,56 @@ def _r2_provenance(run):
     ch = ("sym", g.params()[1])
     el = ("elem", ch)
     apps = [e for e in rg.events if e.kind == "call" and e.term[1][0] == "attr" and e.term[1][2] == "append"]
-    okm = okx = False
-    for e in apps:
-        lst = show(e.term[1][1])
-        arg = e.term[2][0] if e.term[2] else None
-        conds = [c for c in e.pc if c[0] != "loop"]
-        if arg == ("attr", el, "data_min") and "min" in lst and (sym.cmp("IsNot", ("attr", el, "data_min"), sym.NONE), True) in conds:
-            okm = True
-        if arg == ("attr", el, "data_max") and "max" in lst and (sym.cmp("IsNot", ("attr", el, "data_max"), sym.NONE), True) in conds:
-            okx = True
+
+    def collected(fld):
+        """How the children's recorded <fld> are collected: ('ok' | 'subset' | 'unguarded' | None, collection term)."""
+        # comprehension spelling
+        for e in rg.events:
+            if e.kind not in ("assign", "call", "return"):
+                continue
+            for a in atoms_of(e.term):
+                if a[0] == "op" and a[1] == "comp" and len(a[2]) == 4:
+                    kind, elt, it, cond = a[2]
+                    if elt == ("attr", ("elem", it), fld):
+                        base = it
+                        if base[0] == "op" and base[1] == "comp" and len(base[2]) == 4 and base[2][1] == ("elem", base[2][2]) \
+                                and boolalg.equiv(base[2][3], ("op", "not", (sym.cmp("Is", ("elem", base[2][2]), sym.NONE),))) is True:
+                            base = base[2][2]       # [c for c in children if c is not None]: the children that exist
+                        if base != ch:
+                            return "subset", a
+                        if boolalg.implies(cond, ("op", "not", (sym.cmp("Is", elt, sym.NONE),))) is True:
+                            return "ok", a
+                        return "unguarded", a
+        # append spelling
+        for e in apps:
+            arg = e.term[2][0] if e.term[2] else None
+            if arg == ("attr", el, fld):
+                if boolalg.implies(boolalg.conj(e.pc), ("op", "not", (sym.cmp("Is", arg, sym.NONE),))) is True:
+                    return "ok", e.term[1][1]
+                return "unguarded", e.term[1][1]
+        return None, None
+    cm, coll_min = collected("data_min")
+    cx, coll_max = collected("data_max")
+    okm, okx = cm == "ok", cx == "ok"
     loops_ok = any(it == ch for k, it, n in rg.loops)
     sliced = [it for k, it, n in rg.loops if it[0] == "sub" and it[1] == ch]
+    none_pair = ("tuple", (sym.NONE, sym.NONE))
+    real_rets = [t for pc, t, n in rg.returns if t != none_pair]     # `return None, None` for non-FITS pyramids is no range
+    ret = real_rets[0] if len(real_rets) == 1 else None
+    ret_ok = ret is not None and ret[0] == "tuple" and len(ret[1]) == 2
+    ok_red = False
     red = {}
-    for e in rg.events:
-        if e.kind == "assign" and e.term[1][0][1] in ("min_value", "max_value") and e.term[1][1][0] == "call":
-            red[e.term[1][0][1]] = (show(e.term[1][1][1]), show(e.term[1][1][2][0]) if e.term[1][1][2] else "")
-    ok_red = red.get("min_value", ("", ""))[0] == "min" and "min" in red.get("min_value", ("", ""))[1] and \
-        red.get("max_value", ("", ""))[0] == "max" and "max" in red.get("max_value", ("", ""))[1]
-    ret_ok = len(rg.returns) == 1 and rg.returns[0][1][0] == "tuple" and len(rg.returns[0][1][1]) == 2 and "min" in show(rg.returns[0][1][1][0]) and "max" in show(rg.returns[0][1][1][1])
-    if sliced:
-        run.violated("C14.R2", g, None, "only part of the children (%s) contributes to the parent's range" % show(sliced[0])[:40], kind="children-subset")
+    if ret_ok and okm and okx:
+        def reducer_of(t, coll):
+            """name of the min/max call applied to the collection inside the slot term"""
+            for a in atoms_of(t) | {t}:
+                if a[0] == "call" and a[1][0] == "sym" and a[1][1] in ("min", "max") and len(a[2]) == 1 and (a[2][0] == coll or coll in atoms_of(a[2][0])):
+                    return a[1][1]
+            return None
+        red = {"min_value": reducer_of(ret[1][0], coll_min), "max_value": reducer_of(ret[1][1], coll_max)}
+        ok_red = red["min_value"] == "min" and red["max_value"] == "max"
+    if sliced or "subset" in (cm, cx):
+        run.violated("C14.R2", g, None, "only part of the children (%s) contributes to the parent's range" % (show(sliced[0])[:40] if sliced else "a sub-collection"), kind="children-subset")
     elif okm and okx and loops_ok and ok_red and ret_ok:
         run.holds("C14.R2", g, None, "min over the recorded minima and max over the recorded maxima of all children that have one")
     else:
@@ -305,7 +351,7 @@ def _r2_provenance(run):
             what.append("children's data_min are not collected (when not None)")
         if not okx:
             what.append("children's data_max are not collected (when not None)")
-        if not ok_red:
+        if okm and okx and not ok_red:
             what.append("reducers are %s" % red)
         if not loops_ok:
             what.append("not all children are visited")
@@ -323,39 +369,67 @@ def _r3_leaves(run):
     # (a) Image.save: header values depend only on parameters / the array
     f = project.fn(IMG + ".Image.save")
     run.note_func(f)
-    ev = sym.make_evaluator(project, IMG, [])
+    ev = sym.make_evaluator(project, IMG, [], inline_local=True)
     r = ev.run(f.node)
     stores = [e for e in r.events if e.kind == "store" and e.term[1][0][0] == "sub" and e.term[1][0][2] in (("const", "DATAMIN"), ("const", "DATAMAX"))]
     arr = ("call", ("attr", ("sym", "self"), "asarray"), (), ())
     bad = []
-    seen = {"DATAMIN": set(), "DATAMAX": set()}
-    for e in stores:
-        key = e.term[1][0][2][1]
-        val = e.term[1][1]
-        param = ("sym", "min_value" if key == "DATAMIN" else "max_value")
-        red = "np.nanmin" if key == "DATAMIN" else "np.nanmax"
-        from_arr = ("call", ("attr", ("sym", "np"), red[3:]), (arr,), ())
-        conds = [c for c in e.pc if c[0] != "loop"]
-        if val == param:
-            seen[key].add("param")
-            if (sym.cmp("IsNot", param, sym.NONE), True) not in conds:
-                bad.append((e, "%s is written from the parameter without testing `is not None`" % key))
-        elif val == from_arr:
-            seen[key].add("array")
-            if not any("isfinite" in show(c[0]) and c[1] for c in conds):
-                bad.append((e, "%s computed from the array is not guarded by isfinite (all-NaN tiles)" % key))
-        else:
-            deps = [a for a in atoms_of(val) if a[0] == "attr" and a[1] == ("sym", "self") and a[2] not in ("asarray",)]
-            if deps:
-                bad.append((e, "%s is taken from the image's recorded state (%s): after an update of the pixels (read-modify-write of a leaf) the header keeps "
-                               "the stale range of the file that was read" % (key, show(deps[0]))))
+    for key, pname, red in (("DATAMIN", "min_value", "nanmin"), ("DATAMAX", "max_value", "nanmax")):
+        param = ("sym", pname)
+        from_arr = ("call", ("attr", ("sym", "np"), red), (arr,), ())
+        finite = ("call", ("attr", ("sym", "np"), "isfinite"), (from_arr,), ())
+        mine = [e for e in stores if e.term[1][0][2][1] == key]
+        if not mine:
+            bad.append((None, "%s is never written" % key))
+            continue
+        # the card finally written, for (explicit value given?) x (array extreme finite?)
+        for given in (True, False):
+            for fin in (True, False):
+                envt = {param: ("PARAM" if given else None), from_arr: "ARRAY", finite: fin}
+                final = "ABSENT"
+                unknown = None
+                for e in mine:
+                    c = teval(boolalg.conj([c_ for c_ in e.pc if c_[0] != "loop" and (atoms_of(c_[0]) & {param, from_arr, finite})]), envt)
+                    if c is UNKNOWN:
+                        unknown = (e, "condition " + show(boolalg.conj(e.pc))[:80])
+                        break
+                    if c:
+                        v = teval(e.term[1][1], envt)
+                        if v is UNKNOWN:
+                            unknown = (e, "value " + show(e.term[1][1])[:80])
+                            break
+                        final = v
+                want = "PARAM" if given else ("ARRAY" if fin else "ABSENT")
+                if unknown:
+                    e, what = unknown
+                    deps = [a_ for a_ in atoms_of(e.term[1][1]) if a_[0] == "attr" and a_[1] == ("sym", "self") and a_[2] not in ("asarray",)]
+                    if deps:
+                        bad.append((e, "%s is taken from the image's recorded state (%s): after an update of the pixels (read-modify-write of a leaf) the header keeps "
+                                       "the stale range of the file that was read" % (key, show(deps[0]))))
+                    else:
+                        bad.append((e, "%s is written as %s, expected the explicit parameter or np.%s(array)" % (key, show(e.term[1][1])[:80], red)))
+                    break
+                if final != want and not (final is None and want == "ABSENT"):
+                    names = {"PARAM": "the explicit parameter", "ARRAY": "np.%s of the array" % red, "ABSENT": "no card"}
+                    if want == "PARAM":
+                        msg = "%s is written from %s although an explicit value was given" % (key, names.get(final, final))
+                    elif final == "PARAM" or (given is False and final is None):
+                        msg = "%s is written from the parameter without testing `is not None`" % key
+                    elif want == "ABSENT":
+                        msg = "%s computed from the array is not guarded by isfinite (all-NaN tiles)" % key
+                    else:
+                        msg = "%s: expected %s, the code writes %s (explicit value given: %s, array extreme finite: %s)" % (key, names[want], names.get(final, final), given, fin)
+                    bad.append((mine[0], msg))
+                    break
             else:
-                bad.append((e, "%s is written as %s, expected the explicit parameter or %s(array)" % (key, show(val)[:80], red)))
-    for key in ("DATAMIN", "DATAMAX"):
-        if seen[key] != {"param", "array"} and not [b for b in bad if key in b[1]]:
-            bad.append((None, "%s is not written from (parameter if given, else finite range of the array)" % key))
+                continue
+            break
     if bad:
+        seen_msgs = set()
         for e, msg in bad:
+            if msg in seen_msgs:
+                continue
+            seen_msgs.add(msg)
             run.violated("C14.R3", f, e.node if e else None, "Image.save: " + msg, kind="save-range-source")
     else:
         run.holds("C14.R3", f, None, "save: DATAMIN/DATAMAX <- explicit parameter, else nanmin/nanmax of the array (finite only)")
